@@ -38,7 +38,26 @@ def run(ctx, rep):
                 rep.notes.append("atomic operation on something other than the count field (ignored): %s at %s" % (b["key"], loc))
                 continue
             ik = "%s/%s" % (b["key"], {model.ATOMIC_RMW_ADD: "increment", model.ATOMIC_RMW_SUB: "decrement", model.ATOMIC_LOAD: "load"}[cls])
-            if ordr is None:
+            if isinstance(ordr, tuple) and cls == model.ATOMIC_LOAD and not balance.is_api(F, b):
+                # a private loader that takes the ordering from its callers: every call site must pass a constant (what each
+                # load is used for - gate, query, acquire before the free - is judged where its result is used)
+                bad_cs = []
+                n_cs = 0
+                for cb in F.body_list:
+                    CB = None
+                    for cbl in cb["blocks"]:
+                        ct = cbl["term"]
+                        if ct["k"] == "call" and atomics.callee_of(ct) == b["key"]:
+                            CB = CB or cfg.Body(cb)
+                            n_cs += 1
+                            if not isinstance(atomics.resolve_ordering(ordr, CB, ct), str):
+                                bad_cs.append(F.loc(cb, ct["span"]))
+                if n_cs and not bad_cs:
+                    rep.ok("R-ORD", ik, "ordering chosen by %d call sites, each a constant" % n_cs, cfg=tag)
+                    continue
+                rep.bad("R-ORD", ik, "memory ordering operand is a parameter and not every call site passes a constant (%s): cannot check the lemma's premise" % (bad_cs or "no call site"), loc, tag)
+                continue
+            if ordr is None or isinstance(ordr, tuple):
                 rep.bad("R-ORD", ik, "memory ordering operand is not a constant: cannot check the lemma's premise", loc, tag)
                 continue
             if cls == model.ATOMIC_RMW_SUB:
@@ -86,6 +105,12 @@ def run(ctx, rep):
                     i_free = next((i for i, e in enumerate(ev) if i > i_dec and (vget(e["vec"], "free_s1") or vget(e["vec"], "free_raw"))), None)
                     if i_free is None:
                         continue
+                    # the destruction starts where the payload's destructor runs, which may be before the block is given back
+                    # (`drop_in_place(data)` under a deallocation guard): the acquire has to come before that, too
+                    i_destroy = next((i for i, e in enumerate(ev) if i_dec < i < i_free and e["kind"] == "DROP" and vget(e["vec"], "user") and not vget(e["vec"], "dec")), None)
+                    i_block_free = i_free
+                    if i_destroy is not None:
+                        i_free = i_destroy
                     nfree += 1
                     acq = dec_ord in ("AcqRel", "SeqCst")
                     for e in ev[i_dec + 1 : i_free]:
@@ -99,7 +124,7 @@ def run(ctx, rep):
                     if not acq and bad is None:
                         bad = p
                     # R-ORD-6: nothing touches the count word or the payload after the free
-                    for e in ev[i_free + 1 :]:
+                    for e in ev[i_block_free + 1 :]:
                         if e["kind"] in ("LOAD", "INC", "DEC", "DATAREF") or (e["kind"] == "CALL" and e["vec"] != ZERO):
                             rep.bad("R-ORD-6", key + "/after-free", balance.path_report(F, unit, p, "the count word or the payload is touched after the block has been freed"), F.loc(unit, e["span"]), tag)
                 if nfree == 0:
